@@ -69,6 +69,25 @@ theorem C01_partial_inverse (D : Derive) (h : D.WF) (n e : Int) (he : tryFromFn 
 example : exD1.WF ∧ tryFromFn exD1 (-5) = .ok (some (-5)) ∧ tryFromFn exD1 (-6) = .ok none := by
   refine ⟨exD1_WF, by decide, by decide⟩
 
+/-- `try_from(n)` is `None` exactly when no variant has the discriminant `n` -/
+theorem C01_none_iff (D : Derive) (h : D.WF) (n : Int) :
+    tryFromFn D n = .ok none ↔ n ∉ D.vals := by
+  rw [C01_tryFromFn D h]
+  unfold spec.tryFrom
+  rw [D.sem_discs]
+  by_cases hm : n ∈ D.vals <;> simp [hm]
+
+/-- `try_from` is injective where it succeeds: two integers that convert to the same variant are equal -/
+theorem C01_injective (D : Derive) (h : D.WF) (n m e : Int)
+    (hn : tryFromFn D n = .ok (some e)) (hm : tryFromFn D m = .ok (some e)) : n = m := by
+  have a := (C01_partial_inverse D h n e hn).1
+  have b := (C01_partial_inverse D h m e hm).1
+  rw [← a, ← b]
+
+/-- non-vacuity: a hole of a signed enum -/
+example : exD1.WF ∧ tryFromFn exD1 0 = .ok none ∧ (0 : Int) ∉ exD1.vals := by
+  refine ⟨exD1_WF, by decide, by decide⟩
+
 /-! ### the same statements about the function bodies translated from /repo/src (`Generated/Templates.lean`) -/
 
 /-- `try_from(n)` / `TryFrom::try_from(n)` as the source is written now, for every value `n` of the repr type -/
@@ -94,5 +113,11 @@ theorem C01_source_roundtrip (D : Derive) (tg : Target) (md : Modes) (h : D.WF) 
   rw [e1, e2, Res.bind_ok, Res.bind_ok, hi, (C01_source_tryFrom D tg md h v hr).1, (C01_source_tryFrom D tg md h v hr).2]
   rw [hi] at hs
   exact ⟨by rw [hs], by rw [hs]⟩
+
+/-- the same over the translated source: within the repr's range, `None` exactly off the discriminants -/
+theorem C01_source_none_iff (D : Derive) (tg : Target) (md : Modes) (h : D.WF) (n : Int) (hn : D.repr.InRange n) :
+    T.tryFromFn D tg md n = .ok none ↔ n ∉ D.vals := by
+  rw [T.tryFromFn_eq D tg md h n hn]
+  exact C01_none_iff D h n
 
 end ET.Thm
